@@ -376,14 +376,17 @@ class HttpParser(abc.ABC, Generic[_MsgT]):
 
                     # line found
                     line = data[start_pos:pos]
+                    line_len = len(line)
                     if SEP == b"\n":  # For lax response parsing
+                        # Only the CR of a CRLF terminator is free of charge.
+                        line_len -= line.endswith(b"\r")
                         line = line.rstrip(b"\r")
                     # The status/request line is limited by max_line_size,
                     # everything after it is a header.
                     max_line_length = (
                         self.max_field_size if self._lines else self.max_line_size
                     )
-                    if len(line) > max_line_length:
+                    if line_len > max_line_length:
                         raise LineTooLong(line[:100] + b"...", max_line_length)
 
                     self._lines.append(line)
@@ -534,10 +537,7 @@ class HttpParser(abc.ABC, Generic[_MsgT]):
                     )
                     # A trailing CR may still turn out to be (part of) the
                     # line terminator, it does not count towards the limit.
-                    if SEP == b"\n":
-                        tail_len = len(self._tail.rstrip(b"\r"))
-                    else:
-                        tail_len = len(self._tail) - self._tail.endswith(b"\r")
+                    tail_len = len(self._tail) - self._tail.endswith(b"\r")
                     if tail_len > max_line_length:
                         raise LineTooLong(self._tail[:100] + b"...", max_line_length)
                     data = EMPTY
@@ -1009,10 +1009,8 @@ class HttpPayloadParser:
                     tail_len = len(self._chunk_tail)
                     # A trailing CR may still turn out to be (part of) the
                     # line terminator, it does not count towards the limit.
-                    if SEP == b"\r\n":
+                    if SEP == b"\r\n" or self._chunk == ChunkState.PARSE_TRAILERS:
                         tail_len -= self._chunk_tail.endswith(b"\r")
-                    elif self._chunk == ChunkState.PARSE_TRAILERS:
-                        tail_len = len(self._chunk_tail.rstrip(b"\r"))
                     if tail_len > max_line_length:
                         raise LineTooLong(
                             self._chunk_tail[:100] + b"...", max_line_length
@@ -1127,10 +1125,12 @@ class HttpPayloadParser:
 
                     line = chunk[:pos]
                     chunk = chunk[pos + len(SEP) :]
+                    line_len = len(line)
                     if SEP == b"\n":  # For lax response parsing
+                        line_len -= line.endswith(b"\r")
                         line = line.rstrip(b"\r")
 
-                    if len(line) > self._max_field_size:
+                    if line_len > self._max_field_size:
                         raise LineTooLong(line[:100] + b"...", self._max_field_size)
 
                     self._trailer_lines.append(line)
